@@ -85,6 +85,30 @@ def build_datagrams(seq, assign):
     return out
 
 
+def _udp_fds(bw):
+    """fd -> index of the configured port it is bound to, for every fd registered with the loop's selector
+    (found by asking the socket, not by assuming how the bridge created it)."""
+    import os
+    import socket
+
+    out = {}
+    for key in list(bw.loop.ctl.get_map().values()):
+        try:
+            dup = socket.socket(fileno=os.dup(key.fd))
+        except OSError:
+            continue
+        try:
+            if dup.type == socket.SOCK_DGRAM and dup.family == socket.AF_INET:
+                port = dup.getsockname()[1]
+                if port in bw.ports:
+                    out[key.fd] = bw.ports.index(port)
+        except OSError:
+            pass
+        finally:
+            dup.close()
+    return out
+
+
 def execute(ch, nports, seq, assign, res, case, raise_bound):
     """One execution on a fresh bridge. Returns (schedule tuple, multi_pending, raised)."""
     set_zone("UTC")
@@ -99,6 +123,14 @@ def execute(ch, nports, seq, assign, res, case, raise_bound):
             c = ch.choose(2, "callback-raises")
             if c:
                 raised.append(n)
+                # what the user's callback raises is the user's business: every kind is just "a failing callback"
+                import errno
+
+                kinds = [None, OSError(errno.ENETUNREACH, "Network is unreachable"), ConnectionResetError(errno.ECONNRESET, "reset"), KeyError("x"),
+                         OSError(errno.EBADF, "Bad file descriptor"), ValueError("v"), OSError("plain")]
+                exc = kinds[(n + len(seq) + sum(assign)) % len(kinds)]
+                if exc is not None:
+                    raise exc
             return bool(c)
 
         bw = BridgeWorld(nports, raise_on=raise_on)
@@ -107,7 +139,7 @@ def execute(ch, nports, seq, assign, res, case, raise_bound):
             if out[0] != "ok":
                 res.violation("bridge-start-fails", case, f"start: {out}")
                 return None
-            fd2port = {bw.loop.udp[p].get_extra_info("socket").fileno(): i for i, p in enumerate(bw.ports)}
+            fd2port = _udp_fds(bw)
             for p, data, _ in dgs:
                 bw.send(bw.ports[p], data)
             schedule = []
@@ -228,6 +260,90 @@ def callback_kinds(res):
                 bw.close()
 
 
+def default_ports(res):
+    """The bridge exactly as most users create it - SwitcherBridge(callback) on the four well-known ports: every family's
+    broadcast is delivered from whichever of those ports it arrives on. Skipped (with a note) when a port is taken."""
+    import fcntl
+    import os
+
+    from aioswitcher.bridge import SwitcherBridge
+    from mc.world import new_loop, task_outcome, udp_send
+
+    set_zone("UTC")
+    lock = open("/dev/shm/aioswitcher-verif-defaultports.lock" if os.path.isdir("/dev/shm") else "/tmp/aioswitcher-verif-defaultports.lock", "w")
+    fcntl.flock(lock, fcntl.LOCK_EX)
+    try:
+        with Clock(1_700_000_000.0), Capture():
+            loop = new_loop()
+            calls = []
+            try:
+                bridge = SwitcherBridge(calls.append)
+                out = task_outcome(loop.run_task(bridge.start()))
+                if out[0] != "ok":
+                    res.notes.append(f"default-ports part skipped: cannot bind the well-known ports here ({out[1]!r})")
+                    return
+                sent = 0
+                for port in (20002, 10002, 20003, 10003):
+                    for t in ("V4", "POWER_PLUG", "BREEZE", "RUNNER", "MINI", "RUNNER_MINI"):
+                        name = "d%d" % sent
+                        n0 = len(calls)
+                        udp_send(port, B.encode(t, name=name))
+                        loop.settle(2000)
+                        got = [d.name for d in calls[n0:]]
+                        res.case(("default-port", port, t))
+                        res.traces += 1
+                        sent += 1
+                        if got != [name]:
+                            res.violation("default-port-delivery", {"default_ports": True, "port": port, "type": t},
+                                          f"SwitcherBridge(callback) on its default ports: a {t} broadcast arriving on port {port} produced callbacks {got}", [name], got)
+                loop.run_task(bridge.stop())
+            finally:
+                loop.finish()
+    finally:
+        fcntl.flock(lock, fcntl.LOCK_UN)
+        lock.close()
+
+
+# unicast IPv4 senders only: what an AF_INET socket can really report (loopback, the private ranges, link-local, CGNAT, global)
+SENDERS = [("127.0.0.1", 5555), ("192.168.1.20", 20002), ("10.0.0.3", 1), ("172.16.5.5", 65535), ("169.254.1.1", 20002),
+           ("100.64.0.1", 3), ("8.8.8.8", 20002), ("93.184.216.34", 10002), ("1.1.1.1", 53), ("192.0.2.7", 20003), ("11.22.33.44", 40000)]
+
+
+def senders(res):
+    """Who sent a broadcast is no part of whether it is valid: the same datagram is handed to the port's protocol object
+    (the way the event loop hands over what arrives) with every kind of sender address."""
+    set_zone("UTC")
+    with Clock(1_700_000_000.0), Capture():
+        bw = BridgeWorld(2)
+        try:
+            bw.start()
+            protos = [bw.loop.udp_protocols.get(p) for p in bw.ports]
+            if any(p is None or not hasattr(p, "datagram_received") for p in protos):
+                res.notes.append("senders part skipped: the bridge does not listen through loop.create_datagram_endpoint protocols")
+                return
+            n = 0
+            for addr in SENDERS:
+                for pi, proto in enumerate(protos):
+                    for t in ("V4", "POWER_PLUG", "BREEZE", "RUNNER", "MINI"):
+                        name = "s%d" % n
+                        n += 1
+                        n0 = len(bw.calls)
+                        err = None
+                        try:
+                            proto.datagram_received(B.encode(t, name=name), addr)
+                        except Exception as exc:  # noqa: BLE001
+                            err = repr(exc)
+                        bw.settle()
+                        got = [d.name for d in bw.calls[n0:]]
+                        res.case(("sender", addr[0], pi, t))
+                        res.traces += 1
+                        if got != [name] or err:
+                            res.violation("delivery-depends-on-sender", {"senders": True, "addr": list(addr), "port_index": pi, "type": t},
+                                          f"a valid {t} broadcast arriving on port #{pi} from {addr} produced callbacks {got}" + (f" and raised {err}" if err else ""), [name], got)
+        finally:
+            bw.close()
+
+
 def combos(tier):
     """(nports, seq, assign) triples."""
     out = []
@@ -263,7 +379,7 @@ def raise_bound(tier):
 
 def jobs(tier, seed):
     n = 64 if tier == "thorough" else 16
-    return [{"tier": tier, "i": i, "n": n} for i in range(n)] + [{"tier": tier, "long": i, "n": 8} for i in range(8)] + [{"tier": tier, "cbkinds": True}]
+    return [{"tier": tier, "i": i, "n": n} for i in range(n)] + [{"tier": tier, "long": i, "n": 8} for i in range(8)] + [{"tier": tier, "cbkinds": True}, {"tier": tier, "defaultports": True}, {"tier": tier, "senders": True}]
 
 
 def cost(label, choice):
@@ -278,6 +394,14 @@ def run_job(job):
         return res
     if "cbkinds" in job:
         callback_kinds(res)
+        return res
+    if "senders" in job:
+        senders(res)
+        res.sample({"sender_addresses": [a[0] for a in SENDERS], "each_sends": ["V4", "POWER_PLUG", "BREEZE", "RUNNER", "MINI"], "to_each_of_ports": 2})
+        return res
+    if "defaultports" in job:
+        default_ports(res)
+        res.sample({"default_ports": [20002, 10002, 20003, 10003], "each_gets": ["V4", "POWER_PLUG", "BREEZE", "RUNNER", "MINI", "RUNNER_MINI"]})
         return res
     rb = raise_bound(tier)
     diverged = []
@@ -370,6 +494,12 @@ def long_lived(res, job):
 
 def replay(case):
     res = Res()
+    if case.get("default_ports"):
+        default_ports(res)
+        return [v for v in res.violations if v["case"] == case] or res.violations
+    if case.get("senders"):
+        senders(res)
+        return [v for v in res.violations if v["case"] == case] or res.violations
     if "cb_kind" in case:
         callback_kinds(res)
         return [v for v in res.violations if v["case"] == case]
